@@ -29,6 +29,7 @@ static const struct ty TYS[] = {
 	{ 'c', 1, 1, 1, 0 }, { 'b', 1, 1, 1, 0 }, { 'y', 1, 1, 0, 0 }, { 'n', 2, 2, 1, 0 }, { 'q', 2, 2, 0, 0 },
 	{ 'i', 4, 4, 1, 0 }, { 'u', 4, 4, 0, 0 }, { 'x', 8, 8, 1, 0 }, { 't', 8, 8, 0, 0 },
 	{ 'f', 4, 4, 1, 1 }, { 'd', 8, 8, 1, 1 }, { 'e', 16, 10, 1, 1 },
+	{ 'l', 8, 8, 1, 0 },   /* target only: `long` */
 };
 static const struct ty *ty_of(const char *s)
 {
@@ -144,13 +145,15 @@ static mpt_type_t tcode(const struct ty *t) { return (mpt_type_t) (unsigned char
 /* minimal iterator over one value (for mpt_iterator_consume) */
 static MPT_STRUCT(value) it_value;
 static int it_advanced;
-static const MPT_STRUCT(value) *it_get(MPT_INTERFACE(iterator) *it) { (void) it; return &it_value; }
+static int it_empty;
+static const MPT_STRUCT(value) *it_get(MPT_INTERFACE(iterator) *it) { (void) it; return it_empty ? 0 : &it_value; }
 static int it_advance(MPT_INTERFACE(iterator) *it) { (void) it; ++it_advanced; return 0; }
 static int it_reset(MPT_INTERFACE(iterator) *it) { (void) it; return 0; }
 static const MPT_INTERFACE_VPTR(iterator) it_vptr = { it_get, it_advance, it_reset };
 static MPT_INTERFACE(iterator) it_obj = { &it_vptr };
 
 static int do_argv(const struct ty *src, const struct ty *tgt, void *dest);
+static int src_null;
 
 /* one conversion, mode 3: through a variadic call; mode 0: converter from mpt_data_converter, mode 1: mpt_value_convert, mode 2: mpt_iterator_consume */
 static int do_conv(int mode, const struct ty *src, const struct ty *tgt, void *dest)
@@ -164,7 +167,7 @@ static int do_conv(int mode, const struct ty *src, const struct ty *tgt, void *d
 	if (mode == 0) {
 		MPT_TYPE(data_converter) conv = mpt_data_converter(tcode(src));
 		if (!conv) return MPT_ERROR(BadType);
-		return conv(srcbuf, tcode(tgt), dest);
+		return conv(src_null ? 0 : srcbuf, tcode(tgt), dest);
 	} else {
 		MPT_STRUCT(value) val = MPT_VALUE_INIT(tcode(src), srcbuf);
 		return mpt_value_convert(&val, tcode(tgt), dest);
@@ -334,6 +337,15 @@ static int text_call(const char *fn, const struct ty *tgt, const char *str, void
 	errno = ERANGE;   /* the caller's errno is arbitrary */
 	if (!strcmp(fn, "number")) return mpt_convert_number(str, tgt->code, dest);
 	if (!strcmp(fn, "string")) return mpt_convert_string(str, tcode(tgt), dest);
+	if (!strcmp(fn, "cnat")) switch (tgt->code) {
+	case 'b': return mpt_cchar(dest, str, 0, 0);
+	case 'i': return mpt_cint(dest, str, 0, 0);
+	case 'x': return mpt_clong(dest, str, 0, 0);
+	case 'y': return mpt_cuchar(dest, str, 0, 0);
+	case 'u': return mpt_cuint(dest, str, 0, 0);
+	case 't': return mpt_culong(dest, str, 0, 0);
+	default: return MPT_ERROR(BadArgument);
+	}
 	switch (tgt->code) {
 	case 'b': return mpt_cint8(dest, str, 0, 0);
 	case 'y': return mpt_cuint8(dest, str, 0, 0);
@@ -387,8 +399,39 @@ int main(void)
 		if ((!strcmp(op, "val") || !strcmp(op, "vval") || !strcmp(op, "consume") || !strcmp(op, "argv")) && drv_nw == 5) {
 			const struct ty *src = ty_of(drv_w[2]), *tgt = ty_of(drv_w[3]);
 			wide iv;
-			if (!src || !tgt || parse_src(src, drv_w[4], &iv)) { puts("bad-op"); continue; }
+			if (!src || !tgt || src->code == 'l' || parse_src(src, drv_w[4], &iv)) { puts("bad-op"); continue; }
 			op_val(op[0] == 'a' ? 3 : op[0] == 'c' ? 2 : op[1] == 'v', src, tgt);
+		}
+		else if (!strcmp(op, "null") && drv_nw == 4) {
+			/* c null <src> <tgt>: the converter with a NULL source */
+			const struct ty *src = ty_of(drv_w[2]), *tgt = ty_of(drv_w[3]);
+			if (!src || !tgt || src->code == 'l' || tgt->code == 'l') { puts("bad-op"); continue; }
+			src_null = 1;
+			op_val(0, src, tgt);
+			src_null = 0;
+		}
+		else if (!strcmp(op, "skip") && drv_nw == 4) {
+			/* c skip <src> <v>: mpt_iterator_consume(it, 0, 0) */
+			const struct ty *src = ty_of(drv_w[2]);
+			wide iv;
+			if (!src || src->code == 'l' || parse_src(src, drv_w[3], &iv)) { puts("bad-op"); continue; }
+			it_value._addr = srcbuf;
+			it_value._type = tcode(src);
+			it_advanced = 0;
+			int r = mpt_iterator_consume(&it_obj, 0, 0);
+			char b1[16];
+			if (r > 0 && r < 128) printf("R skipped type=%c | C advanced=%d | I -\n", r, it_advanced);
+			else printf("R %s | C advanced=%d | I -\n", retname(r, b1, sizeof(b1)), it_advanced);
+		}
+		else if (!strcmp(op, "consume-none") && drv_nw == 3) {
+			const struct ty *tgt = ty_of(drv_w[2]);
+			char b1[16];
+			if (!tgt) { puts("bad-op"); continue; }
+			it_empty = 1; it_advanced = 0;
+			dst_prepare();
+			int r = mpt_iterator_consume(&it_obj, tcode(tgt), dstbuf);
+			it_empty = 0;
+			printf("R %s | C advanced=%d | I ret=%s\n", r < 0 ? (dst_touched(tgt) ? "STORED" : "refused") : "ok", it_advanced, retname(r, b1, sizeof(b1)));
 		}
 		else if (!strcmp(op, "fpoint") && drv_nw >= 4 && !strcmp(drv_w[2], "text") && drv_nw == 5) {
 			/* c fpoint text <hex> <oracle>: one numeral word through mpt_iterator_string */
@@ -436,8 +479,10 @@ int main(void)
 			uint8_t *dat; size_t len; int isnull;
 			const char *fn = drv_w[2];
 			int isf = op[0] == 'f';
-			if (!tgt || tgt->flt != isf || (tgt->code == 'c' && strcmp(fn, "number") && strcmp(fn, "string"))
-			    || (strcmp(fn, "number") && strcmp(fn, "string") && strcmp(fn, isf ? "cflt" : "cint"))
+			int nat = !isf && !strcmp(fn, "cnat");
+			if (!tgt || tgt->flt != isf || ((tgt->code == 'c' || tgt->code == 'l') && strcmp(fn, "number") && strcmp(fn, "string"))
+			    || (nat && !strchr("bixyut", tgt->code))
+			    || (!nat && strcmp(fn, "number") && strcmp(fn, "string") && strcmp(fn, isf ? "cflt" : "cint"))
 			    || drv_parse_data(drv_w[4], &dat, &len, &isnull)) { puts("bad-op"); continue; }
 			if (isnull) { free(dat); puts("bad-op"); continue; }
 			op_text(fn, tgt, dat, len);
